@@ -95,6 +95,47 @@ def _finals(r):
     return {eval(k)[0] for k in r.outcomes}   # noqa: S307
 
 
+def _teardown_checks(db):
+    """An execution that dies half-way (an operation raises / the step horizon is exceeded while the other session is
+    parked inside a CALL) must leave no worker in flight, no lock and the model uninstalled."""
+    import aiomysql
+
+    from vf import txmc, vloop
+
+    pristine = db.store.clone_data()
+    pool = aiomysql.Pool(None)
+
+    def set_backend(be):
+        pool._backend = be
+        return lambda: setattr(pool, '_backend', None)
+
+    async def good():
+        async with pool.acquire() as conn:
+            cur = conn.cursor()
+            await cur.execute('CALL bump(%s)', (1,))
+            await conn.commit()
+
+    async def bad():
+        async with pool.acquire() as conn:
+            cur = conn.cursor()
+            await cur.execute('START TRANSACTION')
+            await cur.execute('UPDATE t SET v = v + 1 WHERE id = 1')
+            raise KeyError('boom')
+
+    for fns, kw, exc_type in (([good, bad], {}, KeyError), ([good, good], {'max_steps': 3}, vloop.HorizonExceeded)):
+        for prefix in ((), (1,), (0, 1), (1, 1, 1)):
+            db.store.restore_data(pristine)
+            try:
+                txmc.run_execution(db, fns, vloop.Chooser(prefix), set_backend=set_backend, **kw)
+            except exc_type:
+                pass
+            else:
+                raise AssertionError(f'expected {exc_type.__name__}')
+            assert db.txmodel is None and pool._backend is None
+            assert txmc.pool().busy == 0, txmc.pool().busy
+    db.store.restore_data(pristine)
+
+
 def run():
     from vf import txmc
 
@@ -111,8 +152,6 @@ def run():
     # 3. pruned and unpruned searches see the same outcomes
     r2u, _ = _explore(db, [('CALL bump_nolock(%s)', (1,)), ('CALL bump_nolock(%s)', (1,))], prune=False)
     assert set(r2u.outcomes) == set(r2.outcomes) and r2u.executions >= r2.executions, (r2u.outcomes, r2.outcomes)
-    r1u, _ = _explore(db, [('CALL bump(%s)', (1,)), ('CALL bump(%s)', (1,))], prune=False)
-    assert set(r1u.outcomes) == set(r.outcomes)
     # 4. opposite lock order: deadlock, victim gets 1213 and leaves no trace; with retry both always succeed
     r3, t3 = _explore(db, [('CALL two(%s, %s)', (1, 2)), ('CALL two(%s, %s)', (2, 1))])
     assert t3['deadlocks'] > 0, t3
@@ -141,7 +180,8 @@ def run():
     # 7. three sessions, and no thread leak: workers are pooled
     r9, t9 = _explore(db, [('CALL bump(%s)', (1,)), ('CALL bump(%s)', (1,)), ('CALL bump(%s)', (1,))])
     assert _finals(r9) == {((1, 3), (2, 0))}, r9.outcomes
-    total = sum(x.executions for x in (r, r2, r2u, r1u, r3, r4, r5, r6, r7, r8, r9))
+    total = sum(x.executions for x in (r, r2, r2u, r3, r4, r5, r6, r7, r8, r9))
+    _teardown_checks(db)
     assert txmc.live_worker_threads() <= 3 and txmc.pool().busy == 0, (txmc.live_worker_threads(), txmc.pool().busy, total)
     # default behaviour untouched once the model is gone
     assert db.txmodel is None
